@@ -495,7 +495,7 @@ for _ in pad: $1 {
             ==> (#[trigger] res->Ok_0@[i]).kind() is Invalid && res->Ok_0@[i].byte_spec() == bytes@[i],   //@ob C10.dis.truncated_push_is_invalid_bytes
 //@proof entry
     proof { broadcast use lemma_enc_all_push; }
-//@loop 1
+//@loop 1 kind=for
         invariant
             // the push-immediate counter
             (remaining_push_bytes == 0) == (push_size == 0),                                       //@ob C10.dis.inv.push_counter
@@ -526,7 +526,7 @@ for _ in pad: $1 {
                     assert(push_bytes@ =~= bytes@.subrange(s + 1, offset + 1));
                     assert(bytes@.subrange(0, offset + 1) =~= bytes@.subrange(0, s) + (seq![last_push] + push_bytes@));
                 }
-//@loop 2
+//@loop 2 kind=for
                     invariant
                         remaining_push_bytes == 0, 1 <= push_size <= 32, push_size <= offset < bytes@.len(),
                         ops@.len() + push_size == offset + 1 + pad.index@,                         //@ob C10.dis.index_is_offset
@@ -540,7 +540,7 @@ for _ in pad: $1 {
                         forall|i: int| 0 <= i < ops@.len() ==> !(#[trigger] cls(bytes@, i) is Trunc),    //@ob C10.dis.truncated_push_is_invalid_bytes
 //@proof loopstart #2
                     proof { broadcast use lemma_enc_all_push; assert(enc_all(ops@) + Seq::<u8>::empty() =~= enc_all(ops@)); }
-//@loop 3
+//@loop 3 kind=for
             invariant
                 remaining_push_bytes != 0, push_size != 0, push_bytes@.len() < bytes@.len(),
                 ops@.len() + push_bytes@.len() == bytes@.len() + k,                                 //@ob C10.dis.index_is_offset
